@@ -7,9 +7,13 @@ pub mod c07;
 pub mod c08;
 pub mod c09;
 pub mod c10;
+pub mod c11;
+pub mod c12;
+pub mod c13;
 pub mod c14;
+pub mod c15;
 pub mod recv;
 
 pub fn all() -> Vec<PropDef> {
-    vec![c05::def(), c06::def(), c07::def(), c08::def(), c09::def(), c10::def(), c14::def()]
+    vec![c05::def(), c06::def(), c07::def(), c08::def(), c09::def(), c10::def(), c11::def(), c12::def(), c13::def(), c14::def(), c15::def()]
 }
